@@ -329,16 +329,16 @@ func verifH_C01_compose() {
 	verifReach("end")
 }
 
-//verif:harness id=C01 tier=thorough witness=end bounds="KK: composition whose branches are themselves compositions (allOf/anyOf/oneOf/not of 1-2 leaves) x value in {any float64, any bool, ASCII string len<=1}, default mode"
+//verif:harness id=C01 tier=thorough witness=end bounds="KK: composition whose first branch is itself a composition (allOf/anyOf/oneOf/not of 1-2 leaves) and whose optional second branch is a leaf x value in {any float64, any bool, ASCII string len<=1}, default mode"
 func verifH_C01_compose2() {
 	s := &Schema{}
 	verifComposition("", s, func(p string) SchemaRefs {
-		n := verifChoose(p+"n", 2) + 1
-		var out SchemaRefs
-		for i := 0; i < n; i++ {
-			in := &Schema{}
-			verifComposition(p+"in.", in, func(q string) SchemaRefs { return verifBranches(q, 2) })
-			out = append(out, &SchemaRef{Value: in})
+		// first branch: a composition of 1-2 leaves; optional second branch: a leaf
+		in := &Schema{}
+		verifComposition(p+"in.", in, func(q string) SchemaRefs { return verifBranches(q, 2) })
+		out := SchemaRefs{&SchemaRef{Value: in}}
+		if verifChoose(p+"second", 2) == 1 {
+			out = append(out, &SchemaRef{Value: verifLeafSchema(p + "leaf.")})
 		}
 		return out
 	})
